@@ -41,3 +41,32 @@ def validate(recs, d, tag="xcgv"):
     if verd[-1]['v'] != 'bad' or verd[-1]['cls'] != 'lowered-differ':
         raise vlib.MachineryError("canary accepted by XCodeGenV: binding is not live (%s)" % verd[-1])
     return verd[:-1]
+
+
+def run_bin(d, xexe, sources, tag="xbin", maxbytes=12000):
+    """records for spec/XBinaryV: tokens + the bytes of the file the compiler writes"""
+    cases = [{'id': i, 'src': s, 'input': []} for i, s in sources]
+    res = xlib.run_cases(xexe, cases, d, tag=tag, flags="yB")
+    recs = []
+    for c, r in zip(cases, res):
+        if r.get('status') in ('timeout', 'skipped', 'crash') or 'toks' not in r:
+            continue
+        raw = bytes.fromhex(r.get('bin', ''))
+        if len(raw) > maxbytes:
+            continue
+        names = {t[1]: list(t[1].encode('latin-1')) for t in r['toks'] if t[0] == 'IDENTIFIER'}
+        recs.append({'id': c['id'], 'src': c['src'], 'toks': r['toks'], 'status': r['binstatus'], 'bin': list(raw), 'names': names})
+    return recs
+
+
+def validate_bin(recs, d, tag="xbinv"):
+    import json
+    src = next((r for r in recs if r['status'] == 'ok' and len(r['bin']) > 60), None)
+    if src is None:
+        raise vlib.MachineryError("no compiled record to build the canary from")
+    can = json.loads(json.dumps(src)); can['id'] = 'canary'; can['bin'][40] ^= 1
+    slim = [{k: v for k, v in r.items() if k != 'src'} for r in recs + [can]]
+    verd = xlib.validate(slim, d, tag, module="XBinaryV", cfg="XBinaryV.cfg")
+    if verd[-1]['v'] != 'bad' or verd[-1]['cls'] != 'file-differs' or verd[-1]['at'] != 41:
+        raise vlib.MachineryError("canary accepted by XBinaryV: binding is not live (%s)" % verd[-1])
+    return verd[:-1]
